@@ -524,6 +524,34 @@ pub fn boundary_texts(seed: u64, thorough: bool) -> Vec<(String, String)> {
     v
 }
 
+/// Documents whose leaves are the boundary scalars of the core schema (C08's list) in every style and under every
+/// tag class, as sequence entries, mapping values and mapping keys.
+pub fn typed_family(seed: u64) -> Vec<(String, String)> {
+    let mut out = vec![];
+    let tags = ["", "!!int ", "!!float ", "!!bool ", "!!null ", "!!str ", "!local ", "!!binary "];
+    let mut rng = Rng::new(seed ^ 0xc07);
+    for (i, (_o, t)) in boundary_texts(seed, false).into_iter().enumerate() {
+        if t.is_empty() || t.chars().any(|c| c == '\n' || c == '\'' || c == '"' || c == '\\' || !c.is_ascii()) || t.len() > 48 {
+            continue;
+        }
+        // all tags for the listed texts, a rotating one for a sample of the rest
+        if i >= 400 && i % 16 != 0 {
+            continue;
+        }
+        let ts: Vec<&str> = if i < 400 { tags.to_vec() } else { vec![tags[(i / 16) % tags.len()]] };
+        for p in ts {
+            let sq = format!("'{t}'");
+            let dq = format!("\"{t}\"");
+            let q = if rng.chance(1, 2) { &sq } else { &dq };
+            out.push(("typed".to_string(), format!("- {p}{t}\n- {p}{q}\n- k: {p}{t}\n  q: {p}{q}\n- {p}{q}: {p}{t}\n- {p}|-\n  {t}\n- {p}>-\n  {t}\n- {p}{t}: {t}\n  z: |-\n    {t}\n")));
+            if i % 4 == 0 {
+                out.push(("typed".to_string(), format!("{p}{t}: [{p}{q}, {p}{t} ]\n")));
+            }
+        }
+    }
+    out
+}
+
 fn record(a: &Args) {
     let seed = seed_from_env();
     let texts = boundary_texts(seed, a.thorough());
